@@ -180,6 +180,7 @@ type muxGen struct {
 	h26xOnly       bool     // video is H264 or H265 (codecs whose parameter sets travel in-band as NAL units)
 	videoKinds     []string // if set: the video codec is one of these
 	noPPS          bool     // H264 only: the Track is configured without parameter sets and the stream never carries a PPS
+	latePPS        bool     // with noPPS: from some later key frame on the stream does carry its PPS
 	paramChangeDen int      // a parameter change at a key frame with probability 1/paramChangeDen (default 6)
 }
 
@@ -564,7 +565,7 @@ func genVideoCalls(T *Tape, g *muxGen, c *muxCfg, ts *trackSpec, _ []*writeCall,
 				if T.Chance(1, 3) {
 					p = changeOneField(ts.kind, cur, T.Intn(12))
 				}
-				if g.noPPS {
+				if g.noPPS && !(g.latePPS && i > n/3) {
 					p.pps = nil
 				}
 				if !p.equal(cur) {
